@@ -2,6 +2,7 @@ package p10
 
 import (
 	"fmt"
+	"strings"
 	"time"
 
 	"verifharness/internal/run"
@@ -118,6 +119,55 @@ func probeStateCases(c *run.Ctx) {
 					c.End()
 				}
 			}
+		}
+	}
+}
+
+// ---------------------------------------------------------------- math formulas: constants vs bound variables
+
+// "constant sub-expressions folded at compile time have their run-time value", for {! ..} formulas: a
+// formula with numeric constants against the same formula with every constant supplied through the
+// context ([c0], [c1], ..), optimised and not. Float + and * are not associative, so a simplifier that
+// merges or reorders constants shows with operands such as 0.1/0.2/0.3 or 1e16 (which the tree
+// generator's small integers never do). C19 owns the formula language itself; this only asks that
+// folding is invisible.
+var mathLiftShapes = []string{
+	"[0] + A + B", "[0] * A * B", "A + [0] + B", "A * [0] * B", "[0] + A + B + C", "([0] - A) - B", "[0] + A * B", "A / B + [0]",
+	"[0] * A + B * C", "[0] - A + B", "(A + [0]) + B", "[0] + (A + B)", "[0] / A / B", "A + B + [0]", "[0] ^ A * B", "abs([0] + A) + B",
+}
+var mathLiftConsts = []string{"0.1", "0.2", "0.3", "0.7", "1", "3", "1.1", "100", "0.000001", "10000000000000000", "1000000", "0.5", "2.5", "7"}
+var mathLiftX = []string{"0.1", "0.3", "1", "10000000000000000", "0.000000000000001", "-0.7", "123456.789", "3"}
+
+func mathLiftCases(c *run.Ctx) {
+	N := c.N(1500, 20000)
+	for i := 0; i < N; i++ {
+		if !c.Mine(i) {
+			continue
+		}
+		r := c.Rand("mathlift", i)
+		shape := mathLiftShapes[r.Intn(len(mathLiftShapes))]
+		tpl, ref := shape, shape
+		add := map[string]string{}
+		for j, name := range []string{"A", "B", "C"} {
+			v := mathLiftConsts[r.Intn(len(mathLiftConsts))]
+			key := fmt.Sprintf("c%d", j)
+			tpl = strings.ReplaceAll(tpl, name, v)
+			ref = strings.ReplaceAll(ref, name, "["+key+"]")
+			add[key] = v
+		}
+		cs := &Case{Kind: "lift", Tpl: "{! " + tpl + "}", Ref: "{! " + ref + "}"}
+		for k := 0; k < 3; k++ {
+			cx := Ctx{E: []string{mathLiftX[r.Intn(len(mathLiftX))]}, K: map[string]string{}}
+			cs.Ctxs = append(cs.Ctxs, cx)
+			cs.RefCtxs = append(cs.RefCtxs, cx.with(add))
+		}
+		c.Begin(cs, 0)
+		c.Nontrivial("mathlift", cs.Tpl)
+		c.Count("math_lift_cases", 1)
+		runCase(c, cs)
+		c.End()
+		if c.Violations() >= 6 {
+			return
 		}
 	}
 }
